@@ -46,12 +46,6 @@ pub enum COp {
     /// a fresh container instance (new simulated hash seed) with the same members
     Rebuild { hash_seed: u64, order_seed: u64 },
     Edge(Op),
-    /// an edge between the distinct node object `dup j` and the original with the same key (only
-    /// while that original has no other edge: neighbours are found by key, so anything more
-    /// would be ambiguous in the library itself)
-    TwinConnect { j: usize, to_original: bool, e: u64 },
-    /// isolate() on one end of that edge
-    TwinIsolate { j: usize, on_dup: bool },
 }
 
 #[derive(Clone, Debug, Serialize, Deserialize)]
@@ -66,17 +60,102 @@ pub struct ContSc {
 
 pub struct Container;
 
-fn fmt_attr(a: Option<Vec<(String, String)>>) -> String {
-    match a {
-        None => String::new(),
-        Some(v) => {
-            let mut s = String::from(" ");
-            for (k, val) in v {
-                s.push_str(&format!("[{k}=\"{val}\"]"));
+type Attrs = std::collections::BTreeSet<(String, String)>;
+
+#[derive(Default, Debug, PartialEq)]
+struct Dot {
+    graph_attrs: Attrs,
+    nodes: Vec<(usize, Attrs)>,
+    edges: Vec<(usize, usize, Attrs)>,
+}
+
+/// `[k="v"][k2=v2]`, `[k="v", k2="v2"]`, ... -> set of pairs
+fn parse_attrs(s: &str) -> Result<Attrs, String> {
+    let mut out = Attrs::new();
+    let b: Vec<char> = s.chars().collect();
+    let mut i = 0;
+    let skip = |i: &mut usize| {
+        while *i < b.len() && (b[*i].is_whitespace() || b[*i] == '[' || b[*i] == ']' || b[*i] == ',' || b[*i] == ';') {
+            *i += 1;
+        }
+    };
+    loop {
+        skip(&mut i);
+        if i >= b.len() {
+            break;
+        }
+        let mut key = String::new();
+        while i < b.len() && b[i] != '=' && !b[i].is_whitespace() && b[i] != ']' {
+            key.push(b[i]);
+            i += 1;
+        }
+        while i < b.len() && b[i].is_whitespace() {
+            i += 1;
+        }
+        if i >= b.len() || b[i] != '=' {
+            return Err(format!("attribute without '=' in {s:?}"));
+        }
+        i += 1;
+        while i < b.len() && b[i].is_whitespace() {
+            i += 1;
+        }
+        let mut val = String::new();
+        if i < b.len() && b[i] == '"' {
+            i += 1;
+            while i < b.len() && b[i] != '"' {
+                val.push(b[i]);
+                i += 1;
             }
-            s
+            i += 1;
+        } else {
+            while i < b.len() && !b[i].is_whitespace() && b[i] != ',' && b[i] != ']' && b[i] != ';' {
+                val.push(b[i]);
+                i += 1;
+            }
+        }
+        out.insert((key, val));
+    }
+    Ok(out)
+}
+
+/// Reads a DOT document as statements; layout (indentation, separators, how attribute lists are
+/// written) is not part of the property.
+fn parse_dot(text: &str) -> Result<Dot, String> {
+    let open = text.find('{').ok_or("no '{'")?;
+    let close = text.rfind('}').ok_or("no '}'")?;
+    if close < open || !text[..open].contains("graph") {
+        return Err("not a `[di]graph { ... }` document".into());
+    }
+    let mut dot = Dot::default();
+    for stmt in text[open + 1..close].split(|c| c == '\n' || c == ';') {
+        let st = stmt.trim();
+        if st.is_empty() {
+            continue;
+        }
+        let (head, attrs) = match st.find('[') {
+            Some(i) => (st[..i].trim(), parse_attrs(&st[i..])?),
+            None => (st, Attrs::new()),
+        };
+        let arrow = head.find("->").or_else(|| head.find("--"));
+        if let Some(a) = arrow {
+            let u = head[..a].trim().trim_matches('"').parse::<usize>().map_err(|_| format!("edge statement {st:?}"))?;
+            let v = head[a + 2..].trim().trim_matches('"').parse::<usize>().map_err(|_| format!("edge statement {st:?}"))?;
+            dot.edges.push((u, v, attrs));
+        } else if let Ok(k) = head.trim_matches('"').parse::<usize>() {
+            dot.nodes.push((k, attrs));
+        } else if head.contains('=') {
+            dot.graph_attrs.extend(parse_attrs(head)?);
+        } else {
+            return Err(format!("statement {st:?} is neither a node, an edge nor a graph attribute"));
         }
     }
+    dot.nodes.sort();
+    dot.edges.sort();
+    Ok(dot)
+}
+
+fn attrs_of(a: Option<Vec<(String, String)>>) -> Attrs {
+    a.unwrap_or_default().into_iter().collect()
 }
 
 struct St<F: Flavour> {
@@ -331,27 +410,12 @@ fn step<F: Flavour>(st: &mut St<F>, op: &COp, stats: &mut Stats) -> Result<(), (
         }
         COp::ToDot => {
             let text = F::g_to_dot(st.g());
-            let mut nodes = Vec::new();
-            let mut edges = Vec::new();
-            for line in text.lines() {
-                let l = line.trim();
-                if l.is_empty() || l == "digraph {" || l == "}" {
-                    continue;
-                }
-                if let Some((a, b)) = l.split_once("->") {
-                    match (a.trim().parse::<usize>(), b.trim().parse::<usize>()) {
-                        (Ok(a), Ok(b)) => edges.push((a, b)),
-                        _ => return fail("dot:to_dot", format!("unparseable edge statement {l:?}")),
-                    }
-                } else {
-                    match l.parse::<usize>() {
-                        Ok(k) => nodes.push(k),
-                        _ => return fail("dot:to_dot", format!("unparseable node statement {l:?}")),
-                    }
-                }
-            }
-            nodes.sort();
-            edges.sort();
+            let dot = match parse_dot(&text) {
+                Ok(d) => d,
+                Err(m) => return fail("dot:to_dot", format!("{m} in {text:?}")),
+            };
+            let nodes: Vec<usize> = dot.nodes.iter().map(|x| x.0).collect();
+            let edges: Vec<(usize, usize)> = dot.edges.iter().map(|x| (x.0, x.1)).collect();
             let want_nodes: Vec<usize> = st.members.keys().copied().collect();
             let want_edges: Vec<(usize, usize)> = st.expected_edges().iter().map(|x| (x.0, x.1)).collect();
             if nodes != want_nodes {
@@ -360,41 +424,39 @@ fn step<F: Flavour>(st: &mut St<F>, op: &COp, stats: &mut Stats) -> Result<(), (
             if edges != want_edges {
                 return fail("dot:to_dot", format!("edge statements {edges:?}, edges of the members {want_edges:?}"));
             }
-            if !text.starts_with("digraph {\n") || !text.ends_with('}') {
-                return fail("dot:to_dot", "missing 'digraph {' ... '}' frame".to_string());
-            }
             stats.inc("dot_exports_checked");
         }
         COp::ToDotAttr(spec) => {
             let Some(text) = F::g_to_dot_attr(st.g(), *spec) else { return Ok(()) };
-            let mut lines: Vec<String> = text.lines().map(|l| l.to_string()).collect();
-            if lines.first().map(|s| s.as_str()) != Some("digraph {") || lines.last().map(|s| s.as_str()) != Some("}") {
-                return fail("dot:to_dot_with_attr", "missing 'digraph {' ... '}' frame".to_string());
-            }
-            lines.remove(0);
-            lines.pop();
-            let mut want: Vec<String> = Vec::new();
-            if let Some(ga) = dot_g(*spec) {
-                for (k, v) in ga {
-                    want.push(format!("\t{k}=\"{v}\""));
-                }
-            }
+            let got = match parse_dot(&text) {
+                Ok(d) => d,
+                Err(m) => return fail("dot:to_dot_with_attr", format!("{m} in {text:?}")),
+            };
+            let mut want = Dot {
+                graph_attrs: attrs_of(dot_g(*spec)),
+                ..Default::default()
+            };
             for (k, oid) in &st.members {
-                want.push(format!("\t{k}{}", fmt_attr(dot_n(*spec, *k, F::prio(st.obj(*oid))))));
+                want.nodes.push((*k, attrs_of(dot_n(*spec, *k, F::prio(st.obj(*oid))))));
             }
             for (u, v, e) in st.expected_edges() {
-                want.push(format!("\t{u} -> {v}{}", fmt_attr(dot_e(*spec, u, v, e))));
+                want.edges.push((u, v, attrs_of(dot_e(*spec, u, v, e))));
             }
-            let mut got = lines.clone();
-            got.sort();
-            want.sort();
+            want.nodes.sort();
+            want.edges.sort();
             if got != want {
-                let extra: Vec<&String> = got.iter().filter(|l| !want.contains(l)).take(3).collect();
-                let missing: Vec<&String> = want.iter().filter(|l| !got.contains(l)).take(3).collect();
-                return fail(
-                    "dot:to_dot_with_attr",
-                    format!("statements differ from one node statement per member and one edge statement per iterated edge with the callbacks' attributes: unexpected {extra:?}, missing {missing:?} ({} vs {} statements)", got.len(), want.len()),
-                );
+                let what = if got.graph_attrs != want.graph_attrs {
+                    format!("graph attributes {:?}, callback supplied {:?}", got.graph_attrs, want.graph_attrs)
+                } else if got.nodes != want.nodes {
+                    let extra: Vec<_> = got.nodes.iter().filter(|x| !want.nodes.contains(x)).take(3).collect();
+                    let missing: Vec<_> = want.nodes.iter().filter(|x| !got.nodes.contains(x)).take(3).collect();
+                    format!("node statements: unexpected {extra:?}, missing {missing:?} ({} vs {} members)", got.nodes.len(), want.nodes.len())
+                } else {
+                    let extra: Vec<_> = got.edges.iter().filter(|x| !want.edges.contains(x)).take(3).collect();
+                    let missing: Vec<_> = want.edges.iter().filter(|x| !got.edges.contains(x)).take(3).collect();
+                    format!("edge statements: unexpected {extra:?}, missing {missing:?} ({} vs {} edges obtained by iterating the members)", got.edges.len(), want.edges.len())
+                };
+                return fail("dot:to_dot_with_attr", what);
             }
             stats.inc("dot_attr_exports_checked");
         }
@@ -418,48 +480,7 @@ fn step<F: Flavour>(st: &mut St<F>, op: &COp, stats: &mut Stats) -> Result<(), (
             }
             st.world.graph = Some(g);
         }
-        COp::TwinConnect { j, to_original, e } => {
-            let Some(k) = st.dup_keys.get(*j).copied() else { return Ok(()) };
-            if st.model.incident(k) != 0 || st.twin_keys().contains(&k) {
-                return Ok(());
-            }
-            let dup = st.dups[*j].clone();
-            let orig = st.world.nodes[k].clone();
-            if *to_original {
-                F::connect(&dup, &orig, crate::payload::EVal::new(*e));
-            } else {
-                F::connect(&orig, &dup, crate::payload::EVal::new(*e));
-            }
-            st.twin.insert(*j, (*to_original, *e));
-            stats.inc("probe_edge_between_two_node_objects_with_the_same_key");
-        }
-        COp::TwinIsolate { j, on_dup } => {
-            let Some(k) = st.dup_keys.get(*j).copied() else { return Ok(()) };
-            if !st.twin.contains_key(j) {
-                return Ok(());
-            }
-            let dup = st.dups[*j].clone();
-            let orig = st.world.nodes[k].clone();
-            F::isolate(if *on_dup { &dup } else { &orig });
-            st.twin.remove(j);
-            for (name, node) in [("the second node object", &dup), ("the original", &orig)] {
-                let (o, i) = World::<F>::lists_of(node);
-                if !o.is_empty() || !i.is_empty() {
-                    return fail(
-                        "twin-isolate",
-                        format!("after isolate() on one of two node objects with key {k} joined by an edge, {name} still lists {o:?} / {i:?}"),
-                    );
-                }
-            }
-        }
         COp::Edge(op) => {
-            // a node that currently carries a twin edge is left alone (lookups by key would be
-            // ambiguous in the library itself)
-            let tk = st.twin_keys();
-            if !tk.is_empty() && tk.iter().any(|k| gen::remap_op(op, *k).is_none()) {
-                stats.inc("edge_ops_skipped_node_carries_twin_edge");
-                return Ok(());
-            }
             // through the container's own handles when the member is the original node
             let mut op = op.clone();
             let u = op.subject();
@@ -593,15 +614,7 @@ impl Engine for Container {
                     nmask: (rng.next_u64() & 0xffff) as u16,
                     emask: (rng.next_u64() & 0xffff) as u16,
                 }),
-                72..=73 => COp::Rebuild { hash_seed: rng.next_u64(), order_seed: rng.next_u64() },
-                74 => {
-                    if rng.coin() {
-                        next_edge += 1;
-                        COp::TwinConnect { j: rng.below(dup_keys.len()), to_original: rng.coin(), e: next_edge }
-                    } else {
-                        COp::TwinIsolate { j: rng.below(dup_keys.len()), on_dup: rng.coin() }
-                    }
-                }
+                72..=74 => COp::Rebuild { hash_seed: rng.next_u64(), order_seed: rng.next_u64() },
                 _ => {
                     let op = gen::gen_op(rng, &m, &mut next_edge, &cfg);
                     m.step(&op);
